@@ -316,6 +316,15 @@ def abyss(n=66000):
             "profile": "release", "tiers": ["thorough"], "nopar": False}
 
 
+def one_cpu(profiles, quick=40, thorough=600):
+    """the plan engine confined to one processor (taskset -c 0), every builder without a pool of its own: the
+    crate's default pool is sized from a machine that offers a single processor"""
+    d = plan(profiles, quick=quick, thorough=thorough, **{"default-pool": True})
+    d["thorough"].pop("small-scope", None)
+    d["one_cpu"] = True
+    return d
+
+
 _SCALE = {
     "C01": [scale("vwide,fat,fat,fat", quick=48)],
     "C02": [scale("vwide,deep", quick=16), plan("phname", quick=300, thorough=6000), abyss()],
@@ -323,7 +332,7 @@ _SCALE = {
     "C05": [scale("fat,vwide", quick=16), plan("joinbatch", quick=40, thorough=2000)],
     "C07": [scale("fat", quick=16), plan("joinbatch", quick=60, thorough=3000)],
     "C10": [scale("vwide,deep,fat", quick=30), plan("rejbar", quick=100, thorough=3000), abyss()],
-    "C18": [scale("vwide,deep,fat", quick=24), plan("phname", quick=200, thorough=4000)],
+    "C18": [scale("vwide,deep,fat", quick=24), plan("phname", quick=200, thorough=4000), one_cpu("plan,batch,tl")],
     "C19": [scale("vwide,fat", quick=16), plan("phname,rejbar", quick=300, thorough=6000)],
     "C20": [scale("vwide,deep", quick=10), plan("phname", quick=200, thorough=4000)],
 }
